@@ -35,8 +35,10 @@ CHECKS["C06"] = dict(
           "topological order; feasible weights unchanged) and of linear_lib.project / categorical project. The model "
           "is tied to the code by projecting the same float64 matrices with LinearConstraints / "
           "CategoricalCalibrationConstraints on every run; the topological order is re-validated in Coq per case."),
-    note="Models: Model/PartialOrder.v, Model/LinearProject.v. The order-2 norm's square root is an oracle in "
-         "theorems and a truncated Newton iteration in execution.",
+    note="Models: Model/PartialOrder.v, Model/LinearProject.v. The order-2 norm theorems hold for ANY root function "
+         "(identity sumsq(r) * rt(S)^2 == S), for an approximate root (relative error e) and for the EXECUTED truncated "
+         "Newton root (two-sided bounds proved); the exact-root statement is the e = 0 special case. "
+         "normalization_order is modelled for None, 1 and 2 only.",
     technique="Coq proof over Q model + in-Coq correspondence with the constraint objects",
     design="7/C06")
 
@@ -47,8 +49,12 @@ CHECKS["C19"] = dict(
           "(hypercube, simplex), PWLCalibration and CategoricalCalibration the kernel derivative is the interpolation "
           "weight, independent of the kernel, non-negative and summing to one for in-range/clipped Lattice inputs. "
           "tf.GradientTape gradients of the real functions/layers are compared with the model inside Coq on every run."),
-    note="Models: Model/Gradients.v. TensorFlow autodiff of built-in ops is trusted; float32-only product path "
-         "compared at 1e-5.",
+    note="The layer outputs are proved LINEAR in the kernel with exactly the weights the check compares: Lattice "
+         "hypercube weights = the C02 model's weights (entrywise), simplex via the sparse sum, PWLCalibration (all "
+         "call forms) and CategoricalCalibration; per-entry kernel slopes for every unit; KFL unit_out = kfl_out and its "
+         "kernel / scale / input gradients are slopes of the C07 model within one linear piece (C19_kfl_input_gradient). "
+         + "Models: Model/Gradients.v. TensorFlow autodiff of built-in ops is trusted; product path compared in float32 "
+         "(1e-5) and float64 (1e-9). Open known finding D69.",
     technique="Coq proof over Q model + in-Coq correspondence with tf.GradientTape gradients",
     design="7/C19")
 
@@ -176,7 +182,10 @@ CHECKS["C10"] = dict(
           "constraint leaves the fresh kernel unchanged for monotonicity+bounds configs; which other families the "
           "linear kernel satisfies, with refuted witnesses for known findings D6, D24. Initializers and fresh "
           "layers compared in Coq with the models on every run."),
-    note="Models: Model/LatticeInit.v, PWLInit.v, KFLInit.v. Open findings D6, D24, D25.",
+    note="Models: Model/LatticeInit.v, PWLInit.v, KFLInit.v. 'Passes its own assert_constraints' is proved by composing "
+         "the initializer models with the C12 assert models (C10_passes_assert_lattice / _pwl / _categorical / _kfl, "
+         "guards = complements of D6 / D24; refuted outside the guards). float32 layer builds are judged by the "
+         "predicates only. Open findings D6, D24, D25, D63.",
     technique="Coq proof over Q model with random-source oracles + in-Coq correspondence",
     design="7/C10")
 
